@@ -175,6 +175,10 @@ func runHistory(p program, hist []req, classify bool) string {
 			}
 			continue
 		}
+		if i%4 == 3 { // listings and other read-only calls in the middle of the traffic, on both routers
+			model.Observe(a)
+			model.Observe(b)
+		}
 		var before []string
 		if cache := a.VerifCache(); classify && cache != nil {
 			before = cache.VerifKeys()
